@@ -58,6 +58,24 @@ theorem defined_phases_exact (e : EapiInfo) (tree : List Stmt) (p : Str) :
   · rintro ⟨f', hm, hc⟩
     exact ⟨(f', p), ⟨hm, by simpa using hc⟩, rfl⟩
 
+/-- **a phase made default through `EXPORT_FUNCTIONS` is a defined phase function, wherever the call stands**:
+if any eclass sourced for the ebuild (directly or through nested inherits; `me` is that eclass) executes
+`EXPORT_FUNCTIONS … f …` and `f` is a phase function of the EAPI, its phase is in DEFINED_PHASES.  There is
+no hypothesis about `<eclass>_f`: it may be defined before the call, after it (the traditional placement of
+`EXPORT_FUNCTIONS` right after the EAPI check), in another file, or not at all -/
+theorem exported_phase_is_defined (e : EapiInfo) (tree : List Stmt) (me : Str) (ps : List Str) (f p : Str)
+    (hx : (me, Stmt.export ps) ∈ flat [] tree) (hf : f ∈ ps) (hp : (f, p) ∈ e.phases) :
+    p ∈ (metadata e tree).definedPhases := by
+  refine ((defined_phases_exact e tree p).2).2 ⟨f, hp, ?_⟩
+  rw [definedFuncs_eq, List.mem_flatMap]
+  exact ⟨(me, Stmt.export ps), hx, by simpa [defsOf] using hf⟩
+
+/-- the eclass exports `src_compile` *before* defining `early_src_compile`, nested below another eclass -/
+example : ("early".toList, Stmt.export ["src_compile".toList]) ∈
+    flat [] [.inherit [("outer".toList, [.inherit [("early".toList,
+      [.export ["src_compile".toList], .func "early_src_compile".toList])]])]] := by
+  simp [flat, flatEcls]
+
 /-- **the whole metadata is what PMS prescribes**: every emitted key (accumulated keys incl. the EAPI 0–3
 RDEPEND default applied to the ebuild's own DEPEND before the eclass values are added; plain keys;
 whitespace normalised; empty values dropped), DEFINED_PHASES, INHERIT and INHERITED of the translated
